@@ -466,7 +466,13 @@ def m_apply(ms, op):
         return {op["r"]: out}, None
     if name == "poke":
         m = ms[op["r"]]
-        if m is None or m.kind == "atom" or m.n == 0:
+        if m is not None and m.kind == "atom":
+            if op["what"] != "coord":
+                return None
+            out = m.copy()
+            out.coord[op["i"] % 3] = np.float32(op["value"])
+            return {op["r"]: out}, None
+        if m is None or m.n == 0:
             return None
         out = m.copy()
         what = op["what"]
@@ -616,6 +622,20 @@ def generate(rng):
         lv = live()
         r = rng.random()
         op = None
+        atoms_live = live(("atom",))
+        if atoms_live and rng.random() < 0.08:
+            # single atoms: copy() must be independent as well; in-place coordinate edits through one holder
+            a = rng.choice(atoms_live)
+            if rng.random() < 0.5:
+                op = {"op": "copy", "src": a, "dst": rng.randrange(nreg)}
+            else:
+                op = {"op": "poke", "r": a, "what": "coord", "i": rng.randrange(3), "k": 0, "j": 0, "t": 0, "value": rng.choice([7.5, -3.25, 42.0])}
+            res = m_apply(ms, op)
+            if res is not None:
+                ops.append(op)
+                for reg, mm in res[0].items():
+                    ms[reg] = mm
+            continue
         if not lv or r < 0.10:
             kind = rng.choice(["array", "array", "stack"])
             n = rng.choice([0, 1, 2, 3, 5, 8, 10, rng.randint(0, 10)])
@@ -1048,6 +1068,9 @@ class Sim:
                 obj = R[op["r"]]
                 m = self.ms[op["r"]]
                 what = op["what"]
+                if m.kind == "atom":
+                    obj.coord[op["i"] % 3] = op["value"]
+                    return {}, None
                 i = op["i"] % m.n
                 if what == "coord":
                     if m.kind == "array":
